@@ -56,20 +56,21 @@ type TierCfg struct {
 }
 
 type Harness struct {
-	Name     string            `json:"name"`
-	Property string            `json:"property"`
-	Pkg      string            `json:"pkg"`  // directory relative to the repo root ("" = own package zz_harness/<name>)
-	File     string            `json:"file"` // under /verif/harness
-	Deps     []string          `json:"deps,omitempty"` // further harness files (shared helpers) for the same package
-	Func     string            `json:"func"`
-	Solver   string            `json:"solver,omitempty"` // "z3-new" (default) or "cvc5-int"
-	Quick    TierCfg           `json:"quick"`
-	Thorough TierCfg           `json:"thorough"`
-	Bounds   map[string]string `json:"bounds,omitempty"`   // human-readable bounds for the evidence
-	Outside  []string          `json:"outside,omitempty"`  // what lies outside the claim
-	Stubs    []string          `json:"stubs,omitempty"`    // declared stubs/assumptions
-	Anchors  []string          `json:"anchors,omitempty"`  // repo functions this harness is meant to execute
-	NoReplay bool              `json:"no_replay,omitempty"` // schedule-dependent: native replay not deterministic
+	Name           string            `json:"name"`
+	Property       string            `json:"property"`
+	Pkg            string            `json:"pkg"`            // directory relative to the repo root ("" = own package zz_harness/<name>)
+	File           string            `json:"file"`           // under /verif/harness
+	Deps           []string          `json:"deps,omitempty"` // further harness files (shared helpers) for the same package
+	Func           string            `json:"func"`
+	Solver         string            `json:"solver,omitempty"` // "z3-new" (default) or "cvc5-int"
+	Quick          TierCfg           `json:"quick"`
+	Thorough       TierCfg           `json:"thorough"`
+	Bounds         map[string]string `json:"bounds,omitempty"`          // human-readable bounds for the evidence
+	Outside        []string          `json:"outside,omitempty"`         // what lies outside the claim
+	Stubs          []string          `json:"stubs,omitempty"`           // declared stubs/assumptions
+	Anchors        []string          `json:"anchors,omitempty"`         // repo functions this harness is meant to execute
+	NoReplay       bool              `json:"no_replay,omitempty"`       // schedule-dependent: native replay not deterministic
+	ReplayAttempts int               `json:"replay_attempts,omitempty"` // native replays to run (any failing run reproduces); for runtime-random choices
 }
 
 func loadRegistry() []Harness {
@@ -784,14 +785,27 @@ func nativeReplay(h Harness, rfPath string) (string, string) {
 	ovj, _ := json.Marshal(map[string]any{"Replace": ov})
 	ovPath := filepath.Join(tmp, "overlay.json")
 	os.WriteFile(ovPath, ovj, 0o644)
-	cmd := exec.Command("go", "test", "-v", "-tags", "verif", "-vet=off", "-count=1", "-run", "^TestVerifReplay$", "-timeout", "60s", "-overlay", ovPath, "./"+harnessPkgDir(h))
+	// harnesses whose counterexamples depend on choices the Go runtime makes at random natively
+	// (select among ready cases) are replayed several times: any failing run is a reproduction
+	attempts := 1
+	if h.ReplayAttempts > 1 {
+		attempts = h.ReplayAttempts
+	}
+	cmd := exec.Command("go", "test", "-v", "-tags", "verif", "-vet=off", fmt.Sprintf("-count=%d", attempts), "-failfast", "-run", "^TestVerifReplay$", "-timeout", "120s", "-overlay", ovPath, "./"+harnessPkgDir(h))
 	cmd.Dir = repoDir
 	cmd.Env = append(goEnv(), "VERIF_REPLAY="+rfPath)
 	out, _ := cmd.CombinedOutput()
 	so := string(out)
+	first := ""
 	for _, line := range strings.Split(so, "\n") {
 		if strings.HasPrefix(line, "VERIF-RESULT ") {
-			return strings.TrimPrefix(line, "VERIF-RESULT "), so
+			res := strings.TrimPrefix(line, "VERIF-RESULT ")
+			if !strings.HasPrefix(res, "pass") {
+				return res, so
+			}
+			if first == "" {
+				first = res
+			}
 		}
 	}
 	if i := strings.Index(so, "panic: "); i >= 0 {
@@ -803,6 +817,9 @@ func nativeReplay(h Harness, rfPath string) (string, string) {
 	}
 	if strings.Contains(so, "fatal error: all goroutines are asleep") || strings.Contains(so, "test timed out") {
 		return "panic deadlock/timeout", so
+	}
+	if first != "" {
+		return first, so
 	}
 	return "error", so
 }
